@@ -146,7 +146,7 @@ def enforcers_of(fn, tu):
     return [g for g in GROUPS.values() if g['fn'] == fn and g['enforce']]
 
 
-def closure(prop, tier):
+def closure(prop, tier, stop=()):
     sel = [g for g in GROUPS.values() if prop in g['props'] and (tier == 'thorough' or g['tier'] == 'quick')]
     seen = {g['id'] for g in sel}
     todo = list(sel)
@@ -156,6 +156,8 @@ def closure(prop, tier):
         for fn in g['replace']:
             if '/UNREACH_' in fn:
                 continue  # requires(false) contract: replacing asserts the call is unreachable, nothing is assumed
+            if fn in stop:
+                continue  # assumed here, proved by another registered check (listed in the evidence)
             es = enforcers_of(fn, g['tu'])
             if not es:
                 missing.append((g['id'], fn))
@@ -708,6 +710,11 @@ def run_group(ctx, g, obj):
                 rbase += (['--unwind', str(uw)] if isinstance(uw, int) else
                           ['--unwindset', ','.join('%s:%d' % (k, v) for k, v in
                                                    {kk.replace('h_' + c, 'r_' + c): vv for kk, vv in uw.items()}.items())])
+            if g['reach'] == 'full':
+                # some instances are easier for the solver with all checks in place: same flags as the main run, stop at the first failure
+                rbase = ['cbmc', rb, '--json-ui', '--trace', '--object-bits', '12', '--stop-on-fail'] + g['flags']
+                if not g['unwind'] and not g['loops'] and not g['loopinv']:
+                    rbase += ['--unwind', '24']
             rr = None
             for rs in dict.fromkeys([win, 'cadical', 'z3']):
                 rc, out, dt = run(rbase + SOLVER_ARGS[rs], timeout=min(g['timeout'], 600), cwd=ctx.work, mem_kb=MEM_KB)
@@ -782,7 +789,7 @@ def check_property(pid, tier, seed, verbose=False, only=None, keep=False):
     load_registry()
     meta = load_meta().get(pid, {})
     known = [k for k in load_known()]
-    groups, missing = closure(pid, tier)
+    groups, missing = closure(pid, tier, stop=set(meta.get('closure_stop', {})))
     if only:
         groups = [g for g in groups if re.search(only, g['id'])]
     os.makedirs(os.path.join(ROOT, '.work'), exist_ok=True)
@@ -932,12 +939,15 @@ def check_property(pid, tier, seed, verbose=False, only=None, keep=False):
         solver_seconds=round(sum(r.get('solver_secs', 0.0) for r in results), 1),
         assumptions_scan=scan_assumptions(),
         known_findings=[l for l in kf_lines],
+        contracts_assumed_from_other_checks=meta.get('closure_stop', {}),
+        group_notes={g['id']: g['note'] for g in groups if g.get('note')},
         exhaustive=False,
     )
     ev = dict(property_id=pid, tier=tier, seed=seed, level=level, coverage=cov,
               assumptions=meta.get('assumptions', []) + ['every __CPROVER_assume in /verif is listed under coverage.assumptions_scan'],
               wall_s=round(time.time() - t0, 1), violations=len(violations))
-    with open(os.path.join(evid_dir, '%s.json' % pid), 'w') as f:
+    # a run restricted with --only is a development aid: it must not replace the property's evidence record
+    with open(os.path.join(evid_dir, ('%s.only.json' if only else '%s.json') % pid), 'w') as f:
         json.dump(ev, f, indent=1)
 
     # ---- report
